@@ -46,6 +46,7 @@ fixed('C01', '5c99981', "many-segment content with a requested version was cut o
 fixed('C09', '288f385', "float alpha in a colour tuple ((255, 0, 0, 0.5)) made the PNG writer fail with struct.error", 'F27')
 fixed('C14', '288f385', "struct.error escaped from save(kind='png', dark=(r, g, b, 0.5))", 'F27')
 fixed('C09', '971f002', "PAM: a colour with an alpha channel together with a non-transparent counterpart (dark='#ff000080') failed with struct.error; the alpha of a black / white colour with light=None was dropped", 'F29')
+fixed('C14', '971f002', "struct.error escaped from save(kind='pam', dark='#ff000080')", 'F29')
 fixed('C14', 'ffc3e27', "malformed hexadecimal colours with sign / blank / underscore ('#-12345') were accepted or failed with struct.error", 'F28')
 known('C13', 'K1', 'C13/K1-extra-zero-codeword-when-aligned',
       'an additional 00000000 codeword is written before the pad codewords whenever the terminated bit stream already ends on a codeword boundary and at least one codeword of capacity is left (QR, M2, M4)',
